@@ -61,7 +61,7 @@ L2RUN = l2({"stages": 2}, {"stages": 3}, {"preempt": 2}, {"preempt": 1}, reach=[
 
 SELFTEST = {"pkg": P, "harness": ["harness/prunner"], "entry": "VerifSelfTest", "quick": {}, "thorough": {}, "reach": ["selftest-done"], "selftest": True, "flags": {"workers": 2}}
 
-COMPOSITE = step("VerifComposite", {}, {}, reach=["verdict.success", "verdict.failure", "fail-fast", "allowed-failure", "cancel-acknowledged", "end"], flags={"preempt": 0})
+COMPOSITE = step("VerifComposite", {}, {}, reach=["verdict.success", "verdict.failure", "fail-fast", "allowed-failure", "cancel-acknowledged", "cancel-while-task-in-flight", "end"], flags={"preempt": 0})
 
 C05STEP = step("VerifC05Step", {"N": 4}, {"N": 5}, reach=["sched.start", "sched.append", "sched.replace", "sched.reject-full", "sched.reject-noqueue", "three-waiting", "two-running", "end"])
 
@@ -80,7 +80,9 @@ CHECKS = {
     "C05": {"prefixes": ["C05."], "assumptions": L3_ASSUME, "validate_samples": {"quick": 1, "thorough": 3},
             "runs": [bmc({"K": 4, "N": 4}, {"K": 5, "N": 4}, reach=["sched.start", "sched.append", "sched.replace", "sched.reject-full", "sched.reject-noqueue"]), bmcB(reach=["sched.replace"]), C05STEP]},
     "C06": {"prefixes": ["C06."], "assumptions": L3_ASSUME, "validate_samples": {"quick": 1, "thorough": 3},
-            "runs": [bmc({"K": 4, "N": 4}, {"K": 5, "N": 4}, reach=["spawn.third-or-later-job"]), bmcB(reach=["spawn.third-or-later-job", "state.three-waiting"])]},
+            "runs": [bmc({"K": 4, "N": 4}, {"K": 5, "N": 4}, reach=["spawn.third-or-later-job"]), bmcB(reach=["spawn.third-or-later-job", "state.three-waiting"]),
+                     # a canceled job that winds down (a task already reported the cancel) next to a waiting job
+                     bmc({"K": 5, "N": 2, "reservedvar": 0, "taskerr": 0, "taskcancel": 1}, {"K": 6, "N": 3, "reservedvar": 0, "taskerr": 0, "taskcancel": 1}, reach=["state.waiting", "end"])]},
     "C07": {"prefixes": ["C07."], "assumptions": L3_ASSUME, "validate_samples": {"quick": 1, "thorough": 3},
             "runs": [bmc({"K": 4, "N": 4}, {"K": 5, "N": 4}, reach=["sched.delayed", "spawn.delayed-job", "sched.replace"]), bmcB(reach=["spawn.delayed-job", "sched.replace"])]},
     "C15": {"prefixes": ["C15."], "assumptions": L3_ASSUME, "validate_samples": {"quick": 1, "thorough": 3},
@@ -164,10 +166,12 @@ CHECKS = {
     "C19": {"prefixes": ["C19."],
             "assumptions": ["contract-level: decided up to the hand-over of writers/readers; that bytes written to an *os.File arrive completely and in order, under any volume and concurrency, is operating-system behaviour and is trusted",
                             "stubs: shell interpreter (interp.New/StdIO/Run), parser, template renderer, os.Environ/Getwd; recording output store; HTTP plumbing of the log API (query parsing, JSON encoding) is stubbed, the handler and the runner are real",
-                            "path injectivity of FileOutputStore.buildPath (task names containing '/' or '..') is NOT covered: path.Clean works on bytes of symbolic strings, which the engine does not support"],
+                            "file attribution (VerifC19Paths): FileOutputStore.buildPath with fmt.Sprintf, path.Join and path.Clean executed from their real SSA on two task names that are byte sequences of symbolic bytes (lengths <= len1 / len2, every byte arbitrary, only names the loader's Validate accepts), job ids without '/', both streams: distinct (job, task, stream) give distinct files and every file lies inside its job's directory; longer names are outside the bound"],
             "runs": [{"pkg": T, "harness": ["harness/taskctl"], "entry": "VerifC19Writers", "quick": {}, "thorough": {}, "reach": ["ran", "open-failed"]},
                      {"pkg": "github.com/Flowpack/prunner/server", "harness": ["harness/server"], "entry": "VerifC19Logs", "quick": {}, "thorough": {},
-                      "reach": ["own-task", "foreign-task", "unknown-job", "malformed-id", "empty-task"]}]},
+                      "reach": ["own-task", "foreign-task", "unknown-job", "malformed-id", "empty-task", "non-canonical-id"]},
+                     {"pkg": T, "harness": ["harness/taskctl"], "entry": "VerifC19Paths", "quick": {"len1": 1, "len2": 6}, "thorough": {"len1": 2, "len2": 6},
+                      "reach": ["long-name", "end"], "replay": "harness"}]},
     "C20": {"prefixes": ["C20."],
             "assumptions": ["contract-level against a process-group model: Start creates a group led by the child iff Setpgid; a signal to -pgid reaches every member, to +pid only the child; SIGKILL cannot be ignored, SIGINT can; members may exit on their own at any time; Wait returns when the child is dead",
                             "the kernel (signal delivery, reaping, pid reuse), os/exec and real timing are not executed; time.Sleep(killTimeout) ends at an arbitrary later point",
